@@ -456,9 +456,9 @@ func (c *converter) syncIngress(ing *networking.Ingress) {
 }
 
 func (c *converter) syncIngressHTTP(source *annotations.Source, ing *networking.Ingress, annHost, annBack map[string]string) {
+	// tracks the IngressClass, an ingress without rules depends on it as well
+	_ = c.readIngressClass(source, ing.Spec.IngressClassName)
 	if ing.Spec.DefaultBackend != nil {
-		// tracks the IngressClass, an ingress without rules depends on it as well
-		_ = c.readIngressClass(source, ing.Spec.IngressClassName)
 		svcName, svcPort, err := readServiceNamePort(ing.Spec.DefaultBackend)
 		if err == nil {
 			err = c.addDefaultHostBackend(source, ing.Namespace+"/"+svcName, svcPort, annHost, annBack)
